@@ -262,6 +262,38 @@ def lookup_behaviour(ctx: Ctx) -> None:
                         res.violation(f"C13/lookup-behaviour/{'dropped' if not got else 'wrong-class'}",
                                       f"{framing}: frame with id {ty} ({m.name}, {len(payload)} payload bytes) reached subscribers as {got or 'nothing'}",
                                       {"id": ty, "framing": framing, "payload": payload.hex()}, trace=sim.trace(20))
+            # "... and nothing else is": a type number that api.proto does not declare selects NO class, whatever its low bits / low byte /
+            # value modulo a power of two happen to be (plaintext carries the number as a varint, Noise as a 16-bit field)
+            top = max(pr.by_id)
+            lows = sorted({1, 5, 7, 8, 25, 36, 37, top})   # hello, disconnect, ping, pong, a state, time request/response, the last id
+            if framing == "plain":
+                undeclared = [0, top + 1, top + 2, 200, 255] + [b + k for b in (256, 512, 0x4000, 0x8000, 0xFF00, 1 << 16, 1 << 17, 1 << 21, 1 << 24, 1 << 28, 1 << 31) for k in lows] \
+                    + [(1 << 32) - 1, (1 << 16) - 1]
+            else:
+                undeclared = [0, top + 1, top + 2, 200, 255] + [b + k for b in (256, 512, 0x4000, 0x8000, 0xFF00) for k in lows] + [0xFFFF]
+            for ty in undeclared:
+                if ty in pr.by_id:
+                    continue
+                for payload in (b"", b"\x08\x01"):
+                    live.ensure()
+                    n0 = len(live.log)
+                    w0 = len(live.dconn.received)
+                    conn0 = live.cli._connection  # noqa: SLF001
+                    live.dconn.send_id(ty, payload, 0.0)
+                    sim.run_for(0.01)
+                    got = [type(x).__name__ for _, x in live.log[n0:]]
+                    wrote = [r["name"] or r["id"] for r in live.dconn.received[w0:]]
+                    res.evaluations += 1
+                    res.count("S/undeclared-id-frames")
+                    res.sig("undeclared", framing, ty, bool(payload))
+                    case = {"id": ty, "framing": framing, "payload": payload.hex()}
+                    if got:
+                        res.violation("C13/undeclared-id-selected-a-class", f"{framing}: frame with undeclared type number {ty} (low byte {ty & 0xFF}, mod 65536 = {ty & 0xFFFF}) "
+                                      f"reached subscribers as {got}", case, trace=sim.trace(20))
+                    if wrote:
+                        res.violation("C13/undeclared-id-answered", f"{framing}: frame with undeclared type number {ty} made the client write {wrote}", case, trace=sim.trace(20))
+                    if live.cli._connection is not conn0 or conn0 is None or not conn0.is_connected:  # noqa: SLF001
+                        res.violation("C13/undeclared-id-ended-session", f"{framing}: frame with undeclared type number {ty} ended the session", case, trace=sim.trace(20))
 
 
 def shard(ctx: Ctx) -> None:
